@@ -94,7 +94,7 @@ func (r *Ref) ApplyDeviation(trees map[string]*Tree, from *ymodel.Module, d *ymo
 				}
 				target.Max = parseU(dv.Max, ^uint64(0))
 			}
-			if dv.Units != "" {
+			if dv.Units != "" || dv.EmptyUnits {
 				target.Units = dv.Units
 			}
 			if dv.Type != nil {
